@@ -74,6 +74,12 @@ type FuncContract struct {
 	Line    int
 	Flags   map[string]bool
 	GhostUpd []GhostUpdate
+	At       []AtClause
+}
+
+type AtClause struct {
+	Callee string
+	Clause Clause
 }
 
 type GhostUpdate struct {
@@ -110,12 +116,16 @@ type Contracts struct {
 	Ghosts   map[string]*GhostVar
 	GhostOrder []string
 	Regions  map[string]string // type name -> region
+	Guarded  map[string]string // field key "T.f" -> mutex field "T.m"
+	Monotone map[string]bool   // "T.f": boolean field that never goes from true to false
+	Writers  map[string][]string // heap key -> functions allowed to write it directly
+	WritersProps map[string][]string
 	Lines    int
 }
 
 func ParseContractsFile(path string) (*Contracts, error) {
 	cs := &Contracts{Path: path, Funcs: map[string]*FuncContract{}, TypeInvs: map[string]*TypeInv{},
-		Specs: map[string]*SpecFn{}, Ghosts: map[string]*GhostVar{}, Regions: map[string]string{}}
+		Specs: map[string]*SpecFn{}, Ghosts: map[string]*GhostVar{}, Regions: map[string]string{}, Guarded: map[string]string{}, Monotone: map[string]bool{}, Writers: map[string][]string{}, WritersProps: map[string][]string{}}
 	f, err := os.Open(path)
 	if err != nil {
 		if os.IsNotExist(err) {
@@ -301,6 +311,47 @@ func ParseContractsFile(path string) (*Contracts, error) {
 			}
 			cs.Axioms = append(cs.Axioms, Clause{Kind: "axiom", Props: props, Expr: e, Src: r, Line: ln})
 			cur, curType = nil, nil
+		case "guarded":
+			// guarded T.f by T.m
+			fsx := strings.Fields(rest)
+			if len(fsx) != 3 || fsx[1] != "by" {
+				return nil, fail(fmt.Errorf("usage: guarded T.field by T.mutexfield"))
+			}
+			cs.Guarded[fsx[0]] = fsx[2]
+			cur, curType = nil, nil
+		case "monotone":
+			cs.Monotone[strings.TrimSpace(rest)] = true
+			cur, curType = nil, nil
+		case "writers":
+			// writers {props} <key> <func> <func> ...
+			props, r := parseProps(rest)
+			fsx := strings.Fields(r)
+			if len(fsx) < 1 {
+				return nil, fail(fmt.Errorf("usage: writers <heap key> <func>..."))
+			}
+			cs.Writers[fsx[0]] = fsx[1:]
+			cs.WritersProps[fsx[0]] = props
+			cur, curType = nil, nil
+		case "at":
+			// at <callee> requires {props} expr   (inside a func contract: obligation at each call to callee)
+			if cur == nil {
+				return nil, fail(fmt.Errorf("at outside function contract"))
+			}
+			callee, r := splitWord(rest)
+			kw2, r2 := splitWord(r)
+			if kw2 != "requires" {
+				return nil, fail(fmt.Errorf("usage: at <callee> requires <expr>"))
+			}
+			props, r3 := parseProps(r2)
+			label := ""
+			if strings.HasPrefix(r3, "@") {
+				label, r3 = splitWord(r3[1:])
+			}
+			e, err := ParseExpr(r3)
+			if err != nil {
+				return nil, fail(err)
+			}
+			cur.At = append(cur.At, AtClause{Callee: callee, Clause: Clause{Kind: "at", Props: props, Expr: e, Src: r3, Line: ln, Label: label}})
 		case "ghost":
 			name, typ := splitWord(rest)
 			cs.Ghosts[name] = &GhostVar{Name: name, Type: strings.TrimSpace(typ)}
@@ -818,6 +869,9 @@ func (p *exprParser) parsePrimary() (Expr, error) {
 			return &EBool{V: false}, nil
 		case "nil":
 			return &ENil{}, nil
+		case "forall", "exists":
+			p.pos--
+			return p.parseQuant()
 		}
 		if p.isOp("(") {
 			p.pos++
